@@ -192,6 +192,9 @@ static void elementCodec(Dec &d, Case &c, const Tlv &t, bool fits, const Bytes &
             HeapBuf hb(q + 16); size_t got = 0; int r2 = KSI_TlvElement_serialize(el, hb.p, q + 16, &got, 0);
             if (r2 == KSI_OK) VF_FAIL(c, "C09:element:serialize:len>65535-emitted", "content > 65535 serialized with KSI_OK, header " + hex(hb.p, 4));
         }
+        { // the same with the output left at the end of the buffer (a header is still written, so the refusal must stay), independent of the length query
+            Bytes cont; t.content(cont); size_t bs = cont.size() + 16; HeapBuf hb2(bs); size_t got2 = 0; int r3 = KSI_TlvElement_serialize(el, hb2.p, bs, &got2, KSI_TLV_OPT_NO_MOVE);
+            if (!c.fail && r3 == KSI_OK) VF_FAIL(c, "C09:element:serialize:len>65535-emitted:no-move", "content of " + num((long long)cont.size()) + " octets serialized with KSI_OK under KSI_TLV_OPT_NO_MOVE, header " + hex(hb2.p + (got2 <= bs ? bs - got2 : 0), 4)); c.cls("element:overflow-tree:no-move-option"); }
     } else {
         c.cls("element:fitting");
         VF_CHECK(c, res == KSI_OK && q == want.size(), "C09:element:length-query", "length query gave " + num((long long)q) + " want " + num((long long)want.size()) + " res=" + num(res));
@@ -206,6 +209,11 @@ static void elementCodec(Dec &d, Case &c, const Tlv &t, bool fits, const Bytes &
                 c.cls("element:buf-large-enough");
             } else { VF_CHECK(c, r2 != KSI_OK, "C09:element:serialize:too-small-accepted", "too small buffer accepted"); c.cls("element:buf-too-small"); }
         }
+        if (!c.fail) { // serialization options: output left at the end of the buffer / payload only
+            size_t sz = want.size() + 5; HeapBuf hb(sz); size_t got = 0; int r2 = KSI_TlvElement_serialize(el, hb.p, sz, &got, KSI_TLV_OPT_NO_MOVE);
+            if (r2 != KSI_OK || got != want.size() || memcmp(hb.p + sz - got, want.data(), got)) VF_FAIL(c, "C09:element:serialize:no-move-option", "serialization under KSI_TLV_OPT_NO_MOVE is not the reference encoding at the end of the buffer (res=" + num(r2) + ")");
+            else { Bytes cont; t.content(cont); HeapBuf hc(cont.size() + 3); size_t g2 = 0; int r3 = KSI_TlvElement_serialize(el, hc.p, cont.size() + 3, &g2, KSI_TLV_OPT_NO_HEADER); if (r3 != KSI_OK || g2 != cont.size() || (g2 && memcmp(hc.p, cont.data(), g2))) VF_FAIL(c, "C09:element:serialize:no-header-option", "serialization under KSI_TLV_OPT_NO_HEADER is not the content of the element (res=" + num(r3) + ")"); }
+            c.cls("element:serialize-options"); }
         if (!c.fail) { // detach keeps the encoding
             res = KSI_TlvElement_detach(el);
             if (res != KSI_OK) VF_FAIL(c, "C09:element:detach-failed", "detach failed res=" + num(res));
@@ -222,6 +230,12 @@ static void elementCodec(Dec &d, Case &c, const Tlv &t, bool fits, const Bytes &
 // ---- parsing arbitrary bytes through the three codecs ---------------------------------------------
 static bool refTiles(const Bytes &payload) { std::vector<Tlv> v; return ref::decodeList(payload.data(), payload.size(), v); }
 
+// canonical form of a byte string: wherever the bytes tile into elements they are re-encoded with the shortest header and canonical payload (applied to
+// both sides of a comparison, so that only the header form the serializer chose for elements it re-wrote is abstracted away)
+static Bytes canonBytes(const uint8_t *p, size_t n, int depth) {
+    std::vector<Tlv> kids; if (n == 0 || depth <= 0 || !ref::decodeList(p, n, kids)) return Bytes(p, p + n);
+    Bytes out; for (auto &k : kids) { Tlv e(k.tag); e.N = k.N; e.F = k.F; e.payload = canonBytes(k.payload.data(), k.payload.size(), depth - 1); if (!e.encode(out)) return Bytes(p, p + n); } return out;
+}
 static void cmpParsedTree(Case &c, KSI_TLV *x, const Tlv &r, int depth) {
     // r: header-level decoded element (payload raw). Expand levels while the reference tiles.
     if (KSI_TLV_getTag(x) != r.tag || (KSI_TLV_isNonCritical(x) != 0) != r.N || (KSI_TLV_isForward(x) != 0) != r.F) { VF_FAIL(c, "C09:parse:tree:tag-or-flags-differ", "tag/flags differ"); return; }
@@ -234,6 +248,8 @@ static void cmpParsedTree(Case &c, KSI_TLV *x, const Tlv &r, int depth) {
     if (!tiles) { c.cls("parse:nested-mistiled"); return; }
     if (KSI_TLVList_length(l) != kids.size()) { VF_FAIL(c, "C09:parse:tree:nested-count", "nested count differs"); return; }
     for (size_t i = 0; i < kids.size() && !c.fail; i++) { KSI_TLV *k = nullptr; KSI_TLVList_elementAt(l, i, &k); if (k) cmpParsedTree(c, k, kids[i], depth - 1); }
+    // the raw value asked for again AFTER the element was expanded: still the payload that was encoded (header forms of re-written children aside)
+    if (!c.fail) { const unsigned char *p2 = nullptr; size_t n2 = 0; int r2 = KSI_TLV_getRawValue(x, &p2, &n2); if (r2 != KSI_OK || canonBytes(p2, n2, 6) != canonBytes(r.payload.data(), r.payload.size(), 6)) VF_FAIL(c, "C09:parse:tree:payload-differs-after-expansion", "raw value requested after the nested list differs from the encoded payload (res=" + num(r2) + "): got " + hex(p2, n2 < 24 ? n2 : 24) + " encoded " + hexs(r.payload, 24)); c.cls("parse:raw-value-after-expansion"); }
 }
 
 static void parseBytes(Case &c, const Bytes &in) {
@@ -245,6 +261,8 @@ static void parseBytes(Case &c, const Bytes &in) {
         Ctx ctx; KSI_TLV *x = nullptr; int res = KSI_TLV_parseBlob(ctx, hb.p, hb.n, &x);
         if ((res == KSI_OK) != exact) VF_FAIL(c, exact ? "C09:parse:tree:valid-refused" : "C09:parse:tree:mis-sized-accepted", std::string("parseBlob ") + (res == KSI_OK ? "accepted" : "refused") + ", reference: " + (exact ? "exact element" : "not an exact element") + " input " + hexs(in, 16));
         if (res == KSI_OK && !c.fail) cmpParsedTree(c, x, r, 4);
+        if (res == KSI_OK && !c.fail) { unsigned char *raw = nullptr; size_t rn = 0; int rs = KSI_TLV_serialize(x, &raw, &rn); // after all the look-ups the element still serializes to what was parsed
+            if (rs != KSI_OK || canonBytes(raw, rn, 7) != canonBytes(in.data(), in.size(), 7)) VF_FAIL(c, "C09:parse:tree:reserialization-differs", "element parsed, inspected and serialized again differs from its input (res=" + num(rs) + ")"); KSI_free(raw); }
         KSI_TLV_free(x);
     }
     if (c.fail) return;
